@@ -837,34 +837,53 @@ end Units
 section VarSubst
 open Wp.Var
 
-/-- **`var()` = substitution.**  Whenever the code's `resolve_var` returns (no `RecursionError`: see the
-witness `var_self_cycle`), what it returns is the substitution of the token: every detectable `var(--x, fb)` replaced by the
-value of `--x`, or by `fb` when `--x` is empty, recursively; everything else untouched.  (`None` stands for "the
-token itself".)  The fallback is read as the code reads it (`codeFallback`: without commas). -/
-theorem var_subst_partial (env : Env) :
-    ∀ (fuel : Nat) (t : Tk) (r : Option (List Tk)), resolveVar env fuel t = .ok r →
-      substWith codeFallback env fuel t = some (r.getD [t])
-  | 0, _, _, h => by cases h
-  | fuel + 1, t, r, h => by
-    rcases resolveVar_succ_cases env fuel t _ h with ⟨hc, rfl⟩ |
+/-- How the tuple `seen` of `resolve_var` sits next to the token being resolved, on acyclic custom properties:
+a property under substitution is either empty (then the cycle guard and `computed[name] or default` agree: the
+default), or above every property the token can still refer to. -/
+def SeenOk (env : Env) (rk : String → Nat) (seen : List String) (t : Tk) : Prop :=
+  ∀ s ∈ seen, (env s).isEmpty = true ∨ ∀ m ∈ refs t, rk m < rk s
+
+private theorem seenOk_arg (env : Env) (rk : String → Nat) (seen : List String) (name lname : String)
+    (args : List Tk) (a : Tk) (ha : a ∈ args) (h : SeenOk env rk seen (.fn name lname args)) :
+    SeenOk env rk seen a := by
+  intro s hs
+  rcases h s hs with h | h
+  · exact Or.inl h
+  · refine Or.inr (fun m hm => h m ?_)
+    simp only [refs, List.mem_append]
+    exact Or.inr (refsList_mem args a ha m hm)
+
+/-- On acyclic custom properties the cycle guard never changes the values: a property met again is empty. -/
+private theorem varValues_acyclic (env : Env) (rk : String → Nat) (seen : List String) (key : String)
+    (dflt : List Tk) (hk : ∀ s ∈ seen, (env s).isEmpty = true ∨ rk key < rk s) :
+    varValues env seen key dflt = if (env key).isEmpty then dflt else env key := by
+  unfold varValues
+  by_cases hc : seen.contains key = true
+  · have hmem : key ∈ seen := by simpa using hc
+    rcases hk key hmem with h | h
+    · simp [hc, h]
+    · exact absurd h (Nat.lt_irrefl _)
+  · have hc' : seen.contains key = false := by simpa using hc
+    simp only [hc', Bool.false_eq_true, if_false]
+
+/-- **`var()` = substitution.**  On custom properties whose references are acyclic, whenever the code's
+`resolve_var` returns (it always does from some depth on: `resolve_var_terminates`), what it returns is the
+substitution of the token: every detectable `var(--x, fb)` replaced by the value of `--x`, or by `fb` when
+`--x` is empty, recursively; everything else untouched.  (`None` stands for "the token itself".)  The fallback
+is read as the code reads it (`codeFallback`: without commas).  Acyclicity is what gives substitution a meaning
+(`subst` has no value, for any fuel, on `--a: var(--a)`); there the cycle guard of `fix:` 2bffab3 never fires on
+a non-empty property (`SeenOk`). -/
+theorem var_subst_partial (env : Env) (rk : String → Nat) (hacy : Acyclic env rk) :
+    ∀ (fuel : Nat) (seen : List String) (t : Tk) (r : Option (List Tk)), SeenOk env rk seen t →
+      resolveVar env seen fuel t = .ok r → substWith codeFallback env fuel t = some (r.getD [t])
+  | 0, _, _, _, _, h => by cases h
+  | fuel + 1, seen, t, r, hinv, h => by
+    rcases resolveVar_succ_cases env seen fuel t _ h with ⟨hc, rfl⟩ |
         ⟨name, lname, args, parts, o, rfl, hc, hl, hm, h2, hr⟩ |
         ⟨name, lname, args, v, dflt, parts, rfl, hc, hl, hp, hm, hr⟩
     · unfold substWith; simp [hc]
     · -- the rebuilt function carries no var(): the second resolve_var returns None
-      have hparts : ∀ x ∈ parts.flatten, checkVar x = false := by
-        intro x hx
-        simp only [List.mem_flatten] at hx
-        obtain ⟨p, hp, hxp⟩ := hx
-        obtain ⟨a, _, hfa⟩ := mapM_ok_mem _ args parts hm p hp
-        rcases argStep_ok _ a p hfa with hra | ⟨hra, rfl⟩ | ⟨hleaf, rfl⟩
-        · exact resolveVar_no_var env fuel _ p hra x hxp
-        · simp only [List.mem_singleton] at hxp
-          subst hxp
-          exact resolveVar_none env fuel x hra
-        · simp only [List.mem_singleton] at hxp
-          subst hxp
-          exact checkVar_leaf x hleaf
-      have hc' := checkVar_fn_false name lname parts.flatten hl hparts
+      have hc' := rebuilt_no_var env seen fuel name lname args parts hl hm
       have ho : o = none := by
         cases o with
         | none => rfl
@@ -876,23 +895,52 @@ theorem var_subst_partial (env : Env) :
       subst hr
       have hsub : args.mapM (substWith codeFallback env fuel) = some parts := by
         apply mapM_transfer _ _ args parts hm
-        intro a _ p hfa
+        intro a ha p hfa
         rcases argStep_ok _ a p hfa with hra | ⟨hra, rfl⟩ | ⟨hleaf, rfl⟩
-        · simpa using var_subst_partial env fuel _ _ hra
-        · unfold substWith; simp [resolveVar_none env fuel a hra]
+        · simpa using var_subst_partial env rk hacy fuel seen _ _ (seenOk_arg env rk seen name lname args a ha hinv) hra
+        · unfold substWith; simp [resolveVar_none env seen fuel a hra]
         · unfold substWith; simp [checkVar_leaf a hleaf]
       unfold substWith
       simp only [hc, Bool.not_true, Bool.false_eq_true, if_false, hl, if_true, hsub]
       rfl
     · subst hr
       have hcf : codeFallback args = dflt := by simp [codeFallback, hp]
+      have hlv : (lname == "var") = true := by simpa [bne] using hl
+      have hvmem : Tk.ident v ∈ args := parseArgs_mem args false _ hp _ (by simp)
+      have hkref : dashToUnderscore v ∈ refs (Tk.fn name lname args) := by
+        simp only [refs, hlv, if_true, List.mem_append]
+        exact Or.inl (identNames_mem args v hvmem)
+      have hvals := varValues_acyclic env rk seen (dashToUnderscore v) dflt (fun s hs => by
+        rcases hinv s hs with h | h
+        · exact Or.inl h
+        · exact Or.inr (h _ hkref))
+      rw [hvals] at hm
+      -- every value resolved next keeps the invariant, with `--v` added to `seen`
+      have hnext : ∀ x ∈ (if (env (dashToUnderscore v)).isEmpty then dflt else env (dashToUnderscore v)),
+          SeenOk env rk (seen ++ [dashToUnderscore v]) x := by
+        intro x hx s hs
+        simp only [List.mem_append, List.mem_singleton] at hs
+        by_cases he : (env (dashToUnderscore v)).isEmpty = true
+        · rw [if_pos he] at hx
+          have hxa : x ∈ args := parseArgs_mem args false _ hp x (by simp [hx])
+          rcases hs with hs | rfl
+          · exact seenOk_arg env rk seen name lname args x hxa hinv s hs
+          · exact Or.inl he
+        · rw [if_neg he] at hx
+          have hlt : ∀ m ∈ refs x, rk m < rk (dashToUnderscore v) :=
+            fun m hm => hacy (dashToUnderscore v) m (refsList_mem _ x hx m hm)
+          rcases hs with hs | rfl
+          · rcases hinv s hs with h | h
+            · exact Or.inl h
+            · exact Or.inr (fun m hm => Nat.lt_trans (hlt m hm) (h _ hkref))
+          · exact Or.inr hlt
       have hsub : (if (env (dashToUnderscore v)).isEmpty then dflt else env (dashToUnderscore v)).mapM
           (substWith codeFallback env fuel) = some parts := by
         apply mapM_transfer _ _ _ parts hm
-        intro a _ p hfa
+        intro a ha p hfa
         rcases valueStep_ok _ a p hfa with hra | ⟨hra, rfl⟩
-        · simpa using var_subst_partial env fuel _ _ hra
-        · unfold substWith; simp [resolveVar_none env fuel a hra]
+        · simpa using var_subst_partial env rk hacy fuel _ _ _ (hnext a ha) hra
+        · unfold substWith; simp [resolveVar_none env _ fuel a hra]
       unfold substWith
       simp only [hc, Bool.not_true, Bool.false_eq_true, if_false, hl, hp, hcf, hsub]
       rfl
@@ -1107,17 +1155,17 @@ theorem subst_code_eq_text (env : Env) (henv : ∀ n, wfToks (env n) = true) :
               | _ => rfl
       | _ => simp [checkVar] at hc
 
-/-- **`var()` ≡ textual substitution.**  For custom properties and a token whose `var()` are well formed
+/-- **`var()` ≡ textual substitution.**  For acyclic custom properties and a token whose `var()` are well formed
 (`var(--x)` or `var(--x, fallback)` with a comma-free fallback), whenever `resolve_var` returns, it returns the
 textual substitution of the token (`None` standing for the token itself).  The comma restriction is necessary:
-witness `Witness.C07.var_fallback_commas_dropped`; so is "whenever it returns": witness
-`Witness.C07.var_self_cycle`. -/
-theorem var_subst (env : Env) (henv : ∀ n, wfToks (env n) = true) (fuel : Nat) (t : Tk)
-    (r : Option (List Tk)) (ht : wfTok t = true) (h : resolveVar env fuel t = .ok r) :
+witness `Witness.C07.var_fallback_commas_dropped`.  On cyclic custom properties textual substitution is undefined;
+the code stops at the property met again and takes the fallback (regression example in `Props/C07Var`). -/
+theorem var_subst (env : Env) (rk : String → Nat) (hacy : Acyclic env rk) (henv : ∀ n, wfToks (env n) = true)
+    (fuel : Nat) (t : Tk) (r : Option (List Tk)) (ht : wfTok t = true) (h : resolveVar env [] fuel t = .ok r) :
     subst env fuel t = some (r.getD [t]) := by
   unfold subst
   rw [← subst_code_eq_text env henv fuel t ht]
-  exact var_subst_partial env fuel t r h
+  exact var_subst_partial env rk hacy fuel [] t r (fun s hs => by cases hs) h
 
 /-- Non-vacuity: `translate(var(--x, 7px), var(--y))` with `--y: var(--z, 2px)`, everything well formed. -/
 example :
@@ -1125,7 +1173,7 @@ example :
     let t : Tk := .fn "translate" "translate"
       [.fn "var" "var" [.ident "--x", .comma, .ws, .leaf "7px"], .comma, .ws, .fn "var" "var" [.ident "--y"]]
     (∀ n, wfToks (env n) = true) ∧ wfTok t = true ∧
-    (match resolveVar env 6 t with
+    (match resolveVar env [] 6 t with
       | .ok (some [.fn "translate" "translate" [.leaf "7px", .comma, .ws, .leaf "2px"]]) => true
       | _ => false) = true := by
   refine ⟨?_, by decide, by decide⟩
@@ -1134,7 +1182,7 @@ example :
 
 /-- Non-vacuity, and regression for the repaired `arguments.extend(None)`: `f(var(--c), g())` with `--c: red`
 resolves to `f(red, g())` — the sibling function without `var()` is kept. -/
-example : (match resolveVar (fun n => if n = "__c" then [.ident "red"] else []) 5
+example : (match resolveVar (fun n => if n = "__c" then [.ident "red"] else []) [] 5
       (.fn "f" "f" [.fn "var" "var" [.ident "--c"], .comma, .ws, .fn "g" "g" []]) with
     | .ok (some [.fn "f" "f" [.ident "red", .comma, .ws, .fn "g" "g" []]]) => true
     | _ => false) = true := by decide
@@ -1269,32 +1317,115 @@ theorem pending_invalid_as_absent {β : Type} (key : String) (hasParent : Bool) 
     select (β := β) key hasParent (.pending .invalid) = select key hasParent .absent := by
   cases hi : isInherited key <;> cases hasParent <;> simp [select, hi, hk]
 
-/-- **A `var()` whose substituted value is valid / `initial` / (with a parent) `inherit` is the literal
-declaration.** -/
+/-- **A `var()` whose substituted value is valid / `initial` / `inherit` is the literal declaration** — on every
+element, the root included (full strength since `fix:` 582f36b: the `inherit` clause used to need a parent). -/
 theorem pending_valid_as_literal {β : Type} (key : String) (hasParent : Bool) (v : β) :
     select key hasParent (.pending (.valid v)) = select key hasParent (.value v) ∧
     select (β := β) key hasParent (.pending .initialKw) = select key hasParent .initialKw ∧
-    select (β := β) key true (.pending .inheritKw) = select key true .inheritKw := by
+    select (β := β) key hasParent (.pending .inheritKw) = select key hasParent .inheritKw := by
   refine ⟨?_, ?_, ?_⟩ <;> cases hasParent <;> simp [select]
 
-/-- With a parent, selecting a value never fails. -/
-theorem select_total_with_parent {β : Type} (key : String) (c : Casc β) : ∃ s, select key true c = .ok s := by
+/-- Selecting a value never fails, with or without a parent (full strength since `fix:` 582f36b: on the root
+element `inherit` out of a `var()` used to reach `parent_style[key]` with no parent). -/
+theorem select_total {β : Type} (key : String) (hasParent : Bool) (c : Casc β) :
+    ∃ s, select key hasParent c = .ok s := by
   cases c with
-  | absent => cases hi : isInherited key <;> cases hc : isCustom key <;> simp [select, hi, hc, pure, Except.pure]
-  | inheritKw => simp [select, pure, Except.pure]
+  | absent =>
+    cases hi : isInherited key <;> cases hc : isCustom key <;> cases hasParent <;>
+      simp [select, hi, hc, pure, Except.pure]
+  | inheritKw => cases hasParent <;> simp [select, pure, Except.pure]
   | initialKw => simp [select, pure, Except.pure]
   | value v => simp [select, pure, Except.pure]
   | pending s =>
     cases s with
     | valid v => simp [select, pure, Except.pure]
-    | inheritKw => simp [select, pure, Except.pure]
+    | inheritKw => cases hasParent <;> simp [select, pure, Except.pure]
     | initialKw => simp [select, pure, Except.pure]
-    | invalid => cases hi : isInherited key <;> simp [select, hi, pure, Except.pure]
+    | invalid => simp [select, pure, Except.pure]
+
+/-- The parent's value is only ever selected when there is a parent: `parent_style[key]` is never evaluated on
+the root element. -/
+theorem select_parent_has_parent {β : Type} (key : String) (hasParent : Bool) (c : Casc β)
+    (h : select key hasParent c = .ok .parent) : hasParent = true := by
+  cases hasParent with
+  | true => rfl
+  | false =>
+    exfalso
+    cases c with
+    | absent => cases hi : isInherited key <;> cases hc : isCustom key <;> simp [select, hi, hc, pure, Except.pure] at h
+    | inheritKw => simp [select, pure, Except.pure] at h
+    | initialKw => simp [select, pure, Except.pure] at h
+    | value v => simp [select, pure, Except.pure] at h
+    | pending s => cases s <;> simp [select, pure, Except.pure] at h
 
 /-- `font-size` is inherited (hyphenated names are looked up in their underscore form), `width` is not. -/
 example : select (β := Nat) "font_size" true (.pending .invalid) = .ok .parent ∧
     select (β := Nat) "width" true (.pending .invalid) = .ok .initial ∧
     select (β := Nat) "font_size" false (.pending .invalid) = .ok .initial := by decide
+
+/-- Regression (`html{--a:inherit; width:var(--a)}`, repaired by 582f36b): on the root element `inherit` out of a
+`var()` is the initial value, exactly like the literal `width: inherit`. -/
+example : select (β := Nat) "width" false .inheritKw = .ok .initial ∧
+    select (β := Nat) "width" false (.pending .inheritKw) = .ok .initial ∧
+    select (β := Nat) "font_size" false (.pending .inheritKw) = .ok .initial := by decide
+
+/-! ### One `Pending` object serves every element: its answers must not depend on its history -/
+
+/-- **What `solve` answers is a function of the substituted tokens alone**: the flag left by earlier calls (other
+elements matched by the same rule, other longhands of the same shorthand) changes nothing but the logging. -/
+theorem solve_result_stateless {β : Type} (reported reported' noTokens : Bool) (validate : R β) :
+    (solve reported noTokens validate).result = (solve reported' noTokens validate).result := by
+  unfold solve
+  cases noTokens
+  · simp only [Bool.false_eq_true, if_false]
+    cases validate with
+    | ok v => rfl
+    | error f => cases f <;> rfl
+  · rfl
+
+/-- `solve` is `validate`, except that no tokens at all is `InvalidValues`. -/
+theorem solve_result {β : Type} (reported noTokens : Bool) (validate : R β) :
+    (solve reported noTokens validate).result = if noTokens then .error .invalid else validate := by
+  unfold solve
+  cases noTokens
+  · simp only [Bool.false_eq_true, if_false]
+    cases validate with
+    | ok v => rfl
+    | error f => cases f <;> rfl
+  · rfl
+
+/-- **Element independence**: in any sequence of calls on one shared object, from any initial flag, every call
+gets exactly what it would get alone on a fresh object — `var(--x)` is substituted element by element, and an
+element whose substituted value is invalid has no effect on the others. -/
+theorem solve_seq_independent {β : Type} :
+    ∀ (reported : Bool) (calls : List (Bool × R β)),
+      (solveSeq reported calls).map (·.result) = calls.map fun c => (solve false c.1 c.2).result
+  | _, [] => rfl
+  | reported, (nt, v) :: rest => by
+    simp only [solveSeq, List.map_cons]
+    rw [solve_seq_independent _ rest, solve_result_stateless reported false nt v]
+
+/-- The flag only ever goes up, and a warning is logged exactly when it goes up: at most one warning per
+declaration, at its first invalid substitution. -/
+theorem solve_warns_once {β : Type} (reported noTokens : Bool) (validate : R β) :
+    let o := solve reported noTokens validate
+    (reported = true → o.reported = true ∧ o.warned = false) ∧
+    (o.warned = true ↔ reported = false ∧ o.result = .error .invalid) := by
+  unfold solve
+  cases noTokens <;> cases reported
+  all_goals simp only [Bool.false_eq_true, if_false, if_true]
+  all_goals first
+    | (cases validate with
+        | ok v => simp
+        | error f => cases f <;> simp)
+    | simp
+
+/-- Non-vacuity / regression shape of seeded change C07-4: `div{width:var(--w)}` over three elements with
+`--w: 40px`, `red`, `60px` — the third element gets its 60px although the second was invalid, one warning. -/
+example :
+    (solveSeq false [(false, .ok "40px"), (false, (.error .invalid : R String)), (false, .ok "60px")]).map
+      (fun o => (o.result, o.warned)) =
+    [(.ok "40px", false), (.error .invalid, true), (.ok "60px", false)] := by decide
 
 end PendingValues
 
